@@ -245,7 +245,7 @@ func ruleC01R5(c *Ctx) {
 	}
 	c.floor("C01.R5", "ChunkBufferer.Destroy call sites", len(sites), 1)
 	pp := c.P.Fn(aPrepPipe)
-	starter := pp.AnonFuncs[0]
+	starter := returnedClosure(pp)
 	// the continuation registered on procWorker.Stopped().Next(...)
 	var cont *ssa.Function
 	var startCalls, nextCalls []ssa.CallInstruction
@@ -492,7 +492,7 @@ func ruleC01R8(c *Ctx) {
 	c.floor("C01.R8", "recoverExistingChunks call sites", nRec, 1)
 	c.checkOrder("C01.R8", st, "recoverExistingChunks", callInstrSet(rec), "go feeder.Run", instrSet(goRun))
 
-	starter := c.P.Fn(aPrepPipe).AnonFuncs[0]
+	starter := returnedClosure(c.P.Fn(aPrepPipe))
 	// inside the per-output closure: bufferer.Start before consumer.Start
 	var perOut *ssa.Function
 	for _, f := range starter.AnonFuncs {
